@@ -13,11 +13,13 @@ All runs use the quick tier with VERIF_SEED=1 against a scratch worktree of /rep
 
 ## 1. Independently seeded changes (sub-agents that saw only the property text)
 
-Three rounds. Round 1 (`seeded/C01` ... `seeded/C19`): one change per property, free choice of mechanism — most agents chose a
+Four rounds (76 changes). Round 1 (`seeded/C01` ... `seeded/C19`): one change per property, free choice of mechanism — most agents chose a
 cache or another form of shared state. Round 2 (`seeded/Cxx-2`): a second change per property with the instruction to use
 something else (arithmetic, indexing, ordering, sign handling, boundary conditions, data slips). Round 3 (`seeded/Cxx-3`): a
 third change per property, told which mechanisms had been used before and asked for something different, confined if possible
-to the interaction of two features. Every change keeps the 152
+to the interaction of two features. Round 4 (`seeded/Cxx-4`): a fourth change per property; each author was shown the
+summaries of the three earlier changes for that property and asked for a different mechanism in a different part of the input
+space, aimed at what a harness built from the property text would NOT naturally generate. Every change keeps the 152
 stable tests of the repository green and comes with a demonstration program (`demo.py`: exit 1 with the change, exit 0
 without), both re-confirmed here by `tools_seeded.py`; `meta.json` holds the agent's description and the recorded runs,
 `replays/<check>.json` the minimal failing input the check produced (these are also the regression inputs under `regress/`).
@@ -32,7 +34,12 @@ of round 2 was that special *presentations* of a state (literally in graph form,
 quantum registers, caller metadata) and *rare table features* (SWAP gates, one configuration's one circuit) deserve strata of
 their own rather than being left to uniform sampling. Round 3 added the named textbook states in uniform frames (one local
 frame out of 6^n in 16 ring classes cannot be reached by per-qubit sampling), the input/result aliasing step of C13, and the
-differential of C17 against the library's own record of each table line.
+differential of C17 against the library's own record of each table line. Round 4 added: light generator mixing and pure
+reordering as presentation styles next to dense mixing (C06, C12 and all class-stratified sweeps), qubit-local corruption of
+valid stabilizers (C08), tomography of the library's own MUB basis states (C10), SWAPs and the BFS minimum in C05's compressed
+competitor circuits, boolean matrices (C15, C06), long circuits with SWAP-as-three-CX (C14), graphs built from arrays in
+several memory layouts (C19) and more dtypes / layouts / rank profiles for C18. Of the 19 round-4 changes, 10 were caught by
+the checks as they stood and 9 led to one of these extensions.
 
 ## 2. Own mutation battery (`tools_mutants_batch.py`)
 
